@@ -174,7 +174,7 @@ def classify(pid, desc):
 
 def build_harness(spec, tier, extra_defs=(), keep=False, native=False):
     name = spec["name"]
-    d = os.path.join(BUILD, name + ("." + tier if tier != "quick" else ""))
+    d = os.path.join(BUILD, name + ("." + tier if tier != "quick" else "") + os.environ.get("VERIF_BUILD_SUFFIX", ""))
     shutil.rmtree(d, ignore_errors=True)
     os.makedirs(d)
     res = HarnessResult(spec, tier)
